@@ -260,6 +260,13 @@ def run(rep, tier):
     rep.floor("INI slot stores and reservations", c17.slot_dominance(rep, us["src/utils/ini.c"]), 4)
     rep.floor("resumable scanners", resume_end_rule(rep, us["src/utils/xml.c"]), 2)
     rep.floor("TLV header buffers", asn_extent_rule(rep, us["utils/asn1.h"], sizes=(2, 3) if tier == "quick" else (2, 3, 4)), 800)
+    from props import c12_audit, c14_audit
+    rep.floor("signed hexadecimal parsers", c14_audit.unsigned_accumulation_rule(rep, us["utils/strh2num.h"], hdr="include/utils/strh2num.h"), 6)
+    rep.floor("Base64 'too small' returns", c12_audit.need_size_rule(rep, us["utils/base64.h"]), 3)
+    ncap = 0
+    for lab, u in us.items():
+        ncap += c12_audit.cap0_rule(rep, u, {lab if lab.startswith("src/") else "include/" + lab})
+    rep.floor("returned capacity - 1", ncap, 1)
     rep.floor("functions analysed", nfn, 130)
     rep.floor("tracked memory accesses", total, 300)
     return driver.finish(
